@@ -175,6 +175,22 @@ def check(run):
                           'the activity pattern is normalised along another axis than time (-1): the cosine score compares something else than the temporal activity of the classes',
                           construct=f'R-AXIS::{qq}::time-normalisation')
     run.floor('C16 cosine normalisations', nn, 4)
+    # under 'cos' BOTH sides of the per-bin score are unit vectors over time: the bin's features and the centroid they are compared with.  An un-normalised centroid weights
+    # every class by the length of its centroid, the assignment is then no longer the one of the cosine score
+    from ..walk import reaches_param_avoiding, selected_options
+    al_ = [e.term for e in g.events if e.kind == 'call' and call_parts(e.term)[0] == 'method:_align_segment']
+    if not al_:
+        raise AnalysisError('DHTV: the call of _align_segment is not found')
+    is_norm = lambda x: call_parts(x)[0] == P + '_parameterized_vector_norm'
+
+    def cos_selected(c):
+        sel_ = selected_options({id(c): (c, True)}, 'similarity_metric')
+        return True if any('cos' in o for o in sel_) else None
+    for what, arg, target in (('features of the bin', call_arg(al_[0], 1), None), ('centroid', call_arg(al_[0], 2), lambda x: is_call_to(x, 'numpy.mean'))):
+        bare = reaches_param_avoiding(arg, 'mask' if target is None else None, is_norm, target=target, assume=cos_selected)
+        run.check(not bare, 'R-AXIS', f"DHTV: under 'cos' the {what} reach(es) the score as unit vector(s) over time", fn.loc(arg.node), '',
+                  f"with similarity_metric == 'cos' the {what} reach(es) _align_segment without _parameterized_vector_norm: the inner product is no cosine, classes are weighted by their length",
+                  construct=f'R-AXIS::{q}::cos-unit::{what.split()[0]}')
     # the per-bin assignment compares the bin's current features with the centroid
     al = [e.term for e in g.events if e.kind == 'call' and call_parts(e.term)[0] == 'method:_align_segment']
     oka = bool(al)
